@@ -527,17 +527,34 @@ func keysOf(m map[string]bool) []string {
 
 func r124(c *Ctx, r *R) {
 	f := c.fn(r, "api/ipfsproxy", "slashHandler")
-	if f == nil || len(f.AnonFuncs) != 1 {
-		if f != nil {
-			r.Und("closure", f.Pos(), "slashHandler does not return a single closure")
-		}
+	if f == nil {
 		return
 	}
-	g := f.AnonFuncs[0]
-	sets := findCalls(g, false, "(net/url.Values).Set")
+	// the handler slashHandler returns: a closure over the original
+	// handler, or a method of a small type that holds it
+	var g *ssa.Function
+	var made *ssa.MakeClosure
+	for _, lf := range returnLeaves(f, 0) {
+		h := fnOfValue(lf.Val)
+		if h == nil || (g != nil && g != h) {
+			g = nil
+			break
+		}
+		g = h
+		made, _ = strip(lf.Val).(*ssa.MakeClosure)
+	}
+	if g == nil || len(g.Blocks) == 0 {
+		r.Und("closure", f.Pos(), "slashHandler does not return a single handler function")
+		return
+	}
+	off := 0
+	if g.Signature.Recv() != nil {
+		off = 1
+	}
 	okSet := false
 	var qv ssa.Value
-	for _, ci := range sets {
+	for _, dc := range findCallsDeep(g, "(net/url.Values).Set") {
+		ci := dc.Inner
 		a := ci.Common().Args
 		k, _ := constString(a[1])
 		q, _ := originCall(a[0])
@@ -561,7 +578,7 @@ func r124(c *Ctx, r *R) {
 	}
 	r.Check(okSet, "slash:sets-arg", g.Pos(), "arg=<path variable> is added to the request's own query", "slashHandler does not add the path variable as ?arg= to the request's query")
 	okStore := false
-	instrs(g, func(i ssa.Instruction) {
+	instrsDeep(g, func(i ssa.Instruction) {
 		st, ok := i.(*ssa.Store)
 		if !ok {
 			return
@@ -575,15 +592,64 @@ func r124(c *Ctx, r *R) {
 		}
 	})
 	r.Check(okStore, "slash:writes-query", g.Pos(), "the modified query is written back to the request", "the modified query is not written back to r.URL.RawQuery")
-	okDel := false
-	for _, ci := range callsIn(g) {
-		cv := ci.Common().Value
+	// delegation: the function called with (w, r) is the handler that
+	// slashHandler was given - captured by the closure, or kept in a field
+	// of the method's receiver
+	isOrig := func(cv ssa.Value) bool {
 		if u, ok := cv.(*ssa.UnOp); ok && u.Op == token.MUL {
 			cv = u.X
 		}
-		if fv, ok := cv.(*ssa.FreeVar); ok && fv.Name() == "origHandler" {
+		if fv, ok := cv.(*ssa.FreeVar); ok && made != nil {
+			for i, x := range g.FreeVars {
+				if x == fv && i < len(made.Bindings) {
+					b := made.Bindings[i]
+					if paramIndex(f, b) == 0 {
+						return true
+					}
+					// captured by reference: the binding is the cell of the parameter
+					if al, ok := b.(*ssa.Alloc); ok && al.Referrers() != nil {
+						for _, ref := range *al.Referrers() {
+							if st, ok := ref.(*ssa.Store); ok && st.Addr == ssa.Value(al) && paramIndex(f, st.Val) == 0 {
+								return true
+							}
+						}
+					}
+				}
+			}
+			return false
+		}
+		// a func-typed field of the receiver, filled with the parameter
+		// where slashHandler builds the receiver
+		var fld *types.Var
+		switch x := cv.(type) {
+		case *ssa.FieldAddr:
+			fld = fieldOfAddr(x)
+		case *ssa.Field:
+			if st := structOf(x.X.Type()); st != nil {
+				fld = st.Field(x.Field)
+			}
+		}
+		if fld == nil || off == 0 {
+			return false
+		}
+		ok := false
+		instrs(f, func(i ssa.Instruction) {
+			if st, isSt := i.(*ssa.Store); isSt {
+				if fa, isFA := st.Addr.(*ssa.FieldAddr); isFA && fieldOfAddr(fa) == fld && paramIndex(f, st.Val) == 0 {
+					ok = true
+				}
+			}
+		})
+		return ok
+	}
+	okDel := false
+	for _, ci := range callsIn(g) {
+		if ci.Common().IsInvoke() || ci.Common().StaticCallee() != nil {
+			continue
+		}
+		if isOrig(ci.Common().Value) {
 			a := ci.Common().Args
-			if len(a) == 2 && paramIndex(g, a[0]) == 0 && paramIndex(g, a[1]) == 1 {
+			if len(a) == 2 && paramIndex(g, a[0]) == off && paramIndex(g, a[1]) == off+1 {
 				okDel = true
 			}
 		}
